@@ -58,9 +58,11 @@ def worker_init():
 
 # ---------------------------------------------------------------- case generation
 
-def late_module(name, version):
+def late_module(name, version, init=False):
     s = name.rpartition('.')[2]
+    extra = {'init': True} if init else {}      # created as a package (name/__init__.py) instead of name.py
     return {'name': name, 'version': version, 'iface': {'classes': ['KL_' + s], 'funcs': [], 'insts': [], 'multis': []},
+            **extra,
             'items': [['class', 'KL_' + s, [], ['cl_%s_v%d' % (s, version)], [['ml_' + s, []]]],
                       ['assign', 'xl_%s_v%d' % (s, version), str(version)]]}
 
@@ -90,7 +92,7 @@ def gen_edit(r, spec, state, allow_backward=True):
              if not any(x_['name'] == m['name'] + '.' + a for x_ in mods)]
     if x < 0.12 and late:
         nm = r.choice(late)
-        mod = late_module(nm, 1)
+        mod = late_module(nm, 1, init=r.random() < 0.4)
         return {'op': 'create', 'newmod': mod, 'dt_ms': dt}, {'modules': mods + [mod]}
     if x < 0.18 and state['created'] < 2:
         state['created'] += 1
@@ -118,7 +120,7 @@ def gen_edit(r, spec, state, allow_backward=True):
         # a save in the middle of typing: the file does not parse (a fresh project sees the same broken file)
         nm = dict(nm, items=nm['items'] + [['raw', ['def zqbroken(:', '    pass']]])
     if G.short(m['name']).startswith(('zqlate_', 'zqlsub_', 'zqattr_')):
-        nm = late_module(m['name'], m['version'] + 1)
+        nm = late_module(m['name'], m['version'] + 1, m.get('init', False))
     # version numbers only grow, also after a revert
     top = max([m['version']] + [h['version'] for h in state['history'].get(m['name'], [])])
     if nm['version'] <= top:
@@ -130,7 +132,7 @@ def gen_edit(r, spec, state, allow_backward=True):
 def _reversion(r, spec, idx, version):
     m = dict(spec['modules'][idx], version=version - 1)
     if G.short(m['name']).startswith(('zqlate_', 'zqlsub_', 'zqattr_')):
-        return late_module(m['name'], version)
+        return late_module(m['name'], version, m.get('init', False))
     tmp = {'modules': spec['modules'][:idx] + [m] + spec['modules'][idx + 1:]}
     return G.mutate_module(r, tmp, idx)
 
@@ -173,7 +175,7 @@ def gen_case(seed, i, mode='main'):
             mods2 = list(cur['modules'])
             for mi, m in enumerate(cur['modules']):
                 if G.short(m['name']).startswith(('zqlate_', 'zqlsub_', 'zqattr_')):
-                    nm = late_module(m['name'], m['version'] + 1)
+                    nm = late_module(m['name'], m['version'] + 1, m.get('init', False))
                 else:
                     top = max([m['version']] + [h['version'] for h in state['history'].get(m['name'], [])])
                     nm = _reversion(r, cur, mi, top + 1)
